@@ -575,8 +575,11 @@ pub fn run(ctx: &RunCtx) -> Outcome {
     }
     // program-level companion: the same discipline observed through captures
     let p = DiffRef { caps: true, allow_cond: true, cond_focus: false, omit_empty_no: false, only_pos0: false, f1_undisputed: false, free_cond_refs: false, ref_style: 0 };
-    let pats: Vec<_> = super::product_space(true, if ctx.quick() { 1 } else { 2 }).into_iter().filter(has_commit_construct).collect();
-    let texts = crate::gen::texts(&['a', 'b', 'c'], 4);
+    let mut pats: Vec<_> = super::product_space(true, if ctx.quick() { 1 } else { 2 }).into_iter().filter(has_commit_construct).collect();
+    // committing constructs under scoped flags (a possessive quantifier under the swap-greed flag is still committed)
+    pats.extend(super::space(&crate::gen::flag_cfg(), 3, false).into_iter().filter(has_commit_construct));
+    let mut texts = crate::gen::texts(&['a', 'b', 'c'], 4);
+    texts.extend(crate::gen::texts(&['a', 'B', '\n'], 3));
     let before = o.stats.evaluations;
     stage(ctx, &mut o, &p, "program level: atomic / look-around / conditional patterns vs reference", &pats, &texts);
     o.extra.insert("program_level_evaluations".into(), json!(o.stats.evaluations - before));
